@@ -599,7 +599,12 @@ func (db *SingleBucketBackend) ForceDeleteBucket(name string) error {
 		return err
 	}
 	for _, entry := range entries {
-		if err := db.fs.RemoveAll(entry.Name()); err != nil {
+		if entry.IsDir() {
+			err = removeTree(db.fs, entry.Name())
+		} else {
+			err = db.fs.Remove(entry.Name())
+		}
+		if err != nil {
 			return err
 		}
 	}
